@@ -135,11 +135,11 @@ struct Array {
             resize(n_size);
         }
 
-        index_ += src.Size();
-
-        Type_T       *storage  = Storage();
+        Type_T       *storage  = (Storage() + Size());
         const Type_T *src_item = src.First();
         const Type_T *src_end  = (src_item + src.Size());
+
+        index_ += src.Size();
 
         while (src_item < src_end) {
             Memory::Initialize(storage, *src_item);
